@@ -106,6 +106,11 @@ def gen_impure_stack(rng):
         tainted.add('c')
     if set(t['fields']['c']['args']) & tainted:
         tainted.add('c')
+    # `@optional` changes nothing while the inputs are there: an available optional field downstream of an impure function is as
+    # uncacheable as a required one
+    for spec in (src['fields']['a'], src['fields']['b'], t['fields']['c']):
+        if rng.random() < 0.25 and not spec.get('byvalue'):
+            spec['opt'] = True
     if rng.random() < 0.7:
         layers.append(t)
         have_c = True
